@@ -12,7 +12,7 @@ for d in seeded/$PAT/; do
   nf=$(grep -c "no-failing-input-found" /tmp/seedtest-$id-$pid.log 2>/dev/null)
   pl=$(grep -c "^PROOF-LOST" /tmp/seedtest-$id-$pid.log 2>/dev/null)
   fo=$(grep -c "FAILED-OBLIGATION" /tmp/seedtest-$id-$pid.log 2>/dev/null)
-  fu=$(grep "FAILED-OBLIGATION" /tmp/seedtest-$id-$pid.log 2>/dev/null | sed 's/.*\[\([A-Za-z0-9]*\)[^]]*\].*/\1/' | sort -u | tr '\n' ',')
+  fu=$(grep "FAILED-OBLIGATION" /tmp/seedtest-$id-$pid.log 2>/dev/null | sed -n 's/.* \[\([A-Za-z0-9]*\)\[.*/\1/p' | sort -u | tr '\n' ',')
   first=$(grep "failed obligation" /tmp/seedtest-$id-$pid.log | head -1 | cut -c1-160)
   grep -v "^$id	" $OUT > $OUT.tmp; mv $OUT.tmp $OUT
   printf "%s\t%s\texit=%s\tviolations=%s\tno_input=%s\tproof_lost=%s\tfailed_obligations=%s(%s)\t%s\n" "$id" "$pid" "$rc" "$v" "$nf" "$pl" "$fo" "$fu" "$first" >> $OUT
